@@ -170,7 +170,7 @@ def span_wf_oracle(meta, impl):
     n = len(meta["inp"])
     if sp is None: return f"primary error span not on a character boundary / malformed: {e}"
     if not (sp[0] <= sp[1] <= n): return f"primary error span {sp} outside input of length {n}"
-    user_errs = has_head(meta["g"], {"Custom", "TryMap", "TryMapWith", "MapErr"})   # Simple cannot mark user-supplied errors
+    user_errs = has_head(meta["g"], {"Custom", "TryMap", "TryMapWith", "MapErr", "Prog"})   # Simple cannot mark user-supplied errors
     if (meta["ekind"] == "rich" and ":C" not in e) or (meta["ekind"] == "simple" and not user_errs):
         f = err_found(e)
         want = meta["inp"][sp[0]] if sp[0] < n else None
@@ -239,7 +239,7 @@ def c04_trees(rng, tier):
             out.append((g, inp, ["tree"]))
     return out
 
-C01_CTORS = CORE + ["CollectOrNot"] * 2 + ["AnyRef", "SelectRef"]
+C01_CTORS = CORE + ["CollectOrNot"] * 2 + ["AnyRef", "SelectRef", "Prog"]
 C02_CTORS = ["Any", "Just", "OneOf", "NoneOf", "Then", "Or", "Map", "Filter", "OrNot", "To"] + ITER * 3 + ["MapWith", "ToSlice", "WithCtx", "IgnoreWithCtx", "JustCfg"] + ["CollectOrNot", "RepUnitCfg", "IntoIter", "IntoIter"]
 
 PLAIN_KINDS = ("str", "slice", "array", "stream", "bstream", "mapspan", "withctx", "bytes", "io", "graphemes", "gslice")
@@ -306,7 +306,7 @@ SPECS = {
                 nontrivial=lambda g, inp: len(inp) > 0,
                 rule="C01/C02/C08 grammars, with lazy() at random nodes (also at the top: the only way to accept a proper prefix); each sampled accepted input is also run extended by one token; "
                      "non-trivial = non-empty input"),
-    "C04": Spec("C04", CORE + SPANS + ITER + ["RepUnit"] * 3 + EMIT + RECOVER + DECOR + CTX + ["ExtWrap"] * 3 + ["Skip", "NestedDelims", "Lazy"] + ["IntoIter"] * 3 + ["CollectOrNot", "RepUnitCfg", "Padded"], obs_errs,
+    "C04": Spec("C04", CORE + SPANS + ITER + ["RepUnit"] * 3 + EMIT + RECOVER + DECOR + CTX + ["ExtWrap"] * 3 + ["Skip", "NestedDelims", "Lazy"] + ["IntoIter"] * 3 + ["CollectOrNot", "RepUnitCfg", "Padded", "Prog"], obs_errs,
                 gen_hook=lambda G, rng: c04_hook(G, rng), sem_obs=lambda r: (r.kind,), emit_bias=0.2,
                 ekinds=("rich", "simple", "empty"), ikinds=("str", "slice"),
                 nontrivial=lambda g, inp: len(inp) > 0 and has_head(g, {"IgnoreThen", "ThenIgnore", "Ignored", "To", "ToSlice",
@@ -314,15 +314,15 @@ SPECS = {
                 rule="grammars over every modelled constructor (Pratt tables, recursion, memoization, nested_delimiters, lazy, extension parsers included; nested inputs on token trees); each (grammar, input) is run through parse() and check(); "
                      "extension parsers (Ext over an ExtParser with a separate check path through InputRef::parse / InputRef::check) at random nodes; "
                      "non-trivial = non-empty input and an eliding / mode-forcing combinator present"),
-    "C05": Spec("C05", CORE + ITER + ["RepUnit"] * 3 + EMIT * 6 + RECOVER * 2 + ["ExtWrap", "CollectOrNot", "IntoIter"], obs_emis, ekinds=("rich", "empty", "cheap"), emit_bias=0.3, n_quick=800,
+    "C05": Spec("C05", CORE + ITER + ["RepUnit"] * 3 + EMIT * 6 + RECOVER * 2 + ["ExtWrap", "CollectOrNot", "IntoIter", "Prog"], obs_emis, ekinds=("rich", "empty", "cheap"), emit_bias=0.3, n_quick=800,
                 nontrivial=lambda g, inp: len(inp) > 0 and has_head(g, {"Validate", "RecoverVia", "RecoverSkipUntil", "RecoverSkipRetry"})
                                           and has_head(g, BACKTRACK),
                 rule="C01/C02 grammars with validate emitters and recover_with at random positions; "
                      "non-trivial = an emitter and a backtracking site present, non-empty input"),
-    "C06": Spec("C06", CORE + ITER + ["TryMapWith"] * 2 + ["CollectOrNot"], obs_last, ekinds=("rich", "simple", "cheap", "empty"), no_not=True, extra=span_wf_oracle,
+    "C06": Spec("C06", CORE + ITER + ["TryMapWith"] * 2 + ["CollectOrNot", "Prog"], obs_last, ekinds=("rich", "simple", "cheap", "empty"), no_not=True, extra=span_wf_oracle,
                 nontrivial=lambda g, inp: has_head(g, BACKTRACK),
                 rule="C01/C02 grammars without `not`, all four error types on every case; non-trivial = a backtracking site present"),
-    "C07": Spec("C07", CORE + SPANS * 4 + ITER + ["Padded"] + ["AnyRef", "SelectRef"] * 2, obs_vv, ekinds=("rich",), ikinds=("str", "slice", "mapped", "mappedstream", "iter"),
+    "C07": Spec("C07", CORE + SPANS * 4 + ITER + ["Padded"] + ["AnyRef", "SelectRef"] * 2 + ["Prog"] * 2, obs_vv, ekinds=("rich",), ikinds=("str", "slice", "mapped", "mappedstream", "iter"),
                 nontrivial=lambda g, inp: len(inp) > 0 and has_head(g, {"MapWith", "ToSpan", "ToSlice", "TryMapWith", "FoldlWith", "FoldrWith", "IMapWith"}),
                 rule="C01/C02 grammars with span / slice captures; multi-byte characters in the alphabet; "
                      "non-trivial = a capture node present and non-empty input"),
@@ -337,7 +337,7 @@ SPECS = {
                 rule="operator tables of 1..6 operators over 6 symbols and 4 binding powers (same symbol may be prefix, postfix and infix), tuple and Vec "
                      "tables, optionally followed by a trailing token; inputs sampled as operand (op operand)* with prefix/postfix, mutated/truncated/extended; "
                      "observable: the fully structured tree with the span given to every fold; non-trivial = input of >= 3 tokens"),
-    "C10": Spec("C10", [c for c in CORE + ITER + RECOVER if c not in ("ToSlice",)] + ["AnyRef", "SelectRef"], obs_full, sem_obs=obs_vv_emis_last, ekinds=("rich",),
+    "C10": Spec("C10", [c for c in CORE + ITER + RECOVER if c not in ("ToSlice",)] + ["AnyRef", "SelectRef", "Prog"], obs_full, sem_obs=obs_vv_emis_last, ekinds=("rich",),
                 ikinds=ALL_KINDS, modes=("parse",), slices=False, n_quick=350, n_thorough=4000, cross=c10_cross,
                 nontrivial=lambda g, inp: len(inp) > 0 and has_head(g, BACKTRACK),
                 rule="C01/C02/C08 grammars (without slice captures), every (grammar, input) through all 12 input kinds side by side: &str, &[T], &[T;N], "
@@ -348,7 +348,7 @@ SPECS = {
                      "&Graphemes and &[&Grapheme] side by side (the harness checks the token sequence against unicode-segmentation first); "
                      "non-trivial = non-empty input with a backtracking site"),
     "C11": Spec("C11", CORE + ITER + ["Validate"] + CTX + RECOVER + DECOR * 2, obs_full, sem_obs=obs_vv_emis_last, ekinds=("rich", "simple"), n_quick=700,
-                gen_hook=lambda G, rng: (G.leftrec() if rng.random() < 0.12 else G.memo_clones() if rng.random() < 0.2 else
+                gen_hook=lambda G, rng: (G.leftrec() if rng.random() < 0.10 else G.leftrec_wrapped() if rng.random() < 0.05 else G.memo_clones() if rng.random() < 0.2 else
                                          G.memoize(G.rec(3) if rng.random() < 0.2 else G.g(rng.randint(2, 4)), 0.35)),
                 nontrivial=lambda g, inp: len(inp) > 0 and has_head(g, {"Memo"}),
                 rule="C01/C02 grammars and guarded recursive grammars with memoized() inserted at random subsets of nodes (nested and adjacent placements "
@@ -373,13 +373,14 @@ SPECS = {
     "C17": Spec("C17", CORE + ITER + DECOR * 6, obs_full, sem_obs=obs_vv_emis, ekinds=("rich",),
                 nontrivial=lambda g, inp: has_head(g, set(DECOR)),
                 rule="C01/C02 grammars with labelled / as_context / map_err at random nodes, Rich errors; non-trivial = a decoration present"),
-    "C18": Spec("C18", CORE + ITER + RECOVER + ["MapWith"] * 6 + ["FoldlWith", "FoldrWith"] + ["Skip"] * 2 + ["WithState"] * 3 + ["Padded"] * 4 + ["AnyRef", "SelectRef"] * 2, obs_vv, ekinds=("rich",), ikinds=("str", "slice"),
+    "C18": Spec("C18", CORE + ITER + RECOVER + ["MapWith"] * 6 + ["FoldlWith", "FoldrWith"] + ["Skip"] * 2 + ["WithState"] * 3 + ["Padded"] * 4 + ["AnyRef", "SelectRef"] * 2 + ["Prog"] * 3, obs_vv, ekinds=("rich",), ikinds=("str", "slice"),
                 nontrivial=lambda g, inp: len(inp) > 0 and has_head(g, {"MapWith", "FoldlWith", "FoldrWith", "IMapWith"}),
                 rule="C01/C02/C08 grammars with state-observing map_with / foldl_with / foldr_with at random nodes (the inspector "
                      "hashes every token and snapshots on save), tokens also consumed through InputRef::skip in custom parsers, with_state(seed) at random nodes "
                      "(for grammars containing it only the tie decides: the specification's state is positional); "
                      "non-trivial = an observation present, non-empty input"),
-    "C20": Spec("C20", CORE + SPANS + ITER + EMIT + RECOVER + DECOR + CTX + ["ExtWrap", "Skip", "Padded", "IntoIter", "CollectOrNot", "RepUnitCfg"], lambda r: (r.kind,), ekinds=("rich", "empty", "cheap", "simple"),
+    "C20": Spec("C20", CORE + SPANS + ITER + EMIT + RECOVER + DECOR + CTX + ["ExtWrap", "Skip", "Padded", "IntoIter", "CollectOrNot", "RepUnitCfg", "Prog"], lambda r: (r.kind,), ekinds=("rich", "empty", "cheap", "simple"),
+                gen_hook=lambda G, rng: (G.leftrec_wrapped() if rng.random() < 0.06 else G.memoize(G.g(rng.randint(2, 3)), 0.3) if rng.random() < 0.06 else G.g(rng.randint(1, 4))),
                 ikinds=("str", "slice"), nontrivial=lambda g, inp: True,
                 rule="grammars over every modelled constructor (repetition items and skip parsers syntactically consuming), "
                      "all error types; observable = the verdict class (OK / FAIL / PANIC / TIMEOUT); plus implementation-only runs with the verdict known by "
@@ -524,7 +525,9 @@ SPECS["C01"].universe = U(unary=[lambda x: ["Collect", "CVec", ["IOrNot", x]]])
 SPECS["C02"].universe = U(unary=[lambda x: ["Collect", "CVec", ["IEnum", ["IRep", x, 0, 3]]], lambda x: ["Foldr", ["IRep", x, 0, "inf"], "Empty", 5],
                                  lambda x: ["Collect", "CVec", ["IOrNot", x]], lambda x: ["CollectExactly", 2, ["IIntoIter", ["Collect", "CVec", ["IRep", x, 0, "inf"]]]],
                                  lambda x: ["Collect", "CCount", ["IIntoIter", ["OrNot", x]]]],
-                          binary=[lambda x, y: ["Collect", "CVec", ["ISep", x, y, 1, 2, 1, 0]], lambda x, y: ["RepUnit", ["ISep", x, y, 0, "inf", 1, 1]]])
+                          binary=[lambda x, y: ["Collect", "CVec", ["ISep", x, y, 1, 2, 1, 0]], lambda x, y: ["RepUnit", ["ISep", x, y, 0, "inf", 1, 1]],
+                                  lambda x, y: ["Collect", "CVec", ["IThen", ["IRep", x, 0, "inf"], ["IRep", y, 0, "inf"]]],
+                                  lambda x, y: ["Collect", "CCount", ["IThen", ["IOrNot", x], ["IRep", y, 1, 2]]]])
 SPECS["C03"].universe = U(unary=[lambda x: ["Lazy", x]])
 SPECS["C04"].universe = U(unary=[lambda x: ["ToSlice", x], lambda x: ["To", 1, x], lambda x: ["ExtWrap", x], lambda x: ["Validate", "PTrue", 2, x],
                                  lambda x: ["CollectExactly", 2, ["IIntoIter", ["Collect", "CVec", ["IRep", x, 0, "inf"]]]], lambda x: ["Collect", "CVec", ["IIntoIter", ["OrNot", x]]]],
